@@ -90,7 +90,7 @@ func (o *Oracle) Check(st *Step, obs *StepObs, c02, c11 bool) []Finding {
 
 	// ---- classification of the step from the specs (inputs), not from the code's decisions
 	anyDup := false
-	noop := !obs.First && !st.Full && st.MaxConn == 0 && len(st.DelBacks) == 0 && len(st.DelHosts) == 0 &&
+	noop := !obs.First && !st.Full && st.MaxConn == 0 && !obs.DefaultDiff && len(st.DelBacks) == 0 && len(st.DelHosts) == 0 &&
 		len(st.Faults) == 0 && (len(st.Backs) > 0 || len(st.Hosts) > 0)
 	inCapacity := noop
 	changedEps := false
@@ -136,6 +136,8 @@ func (o *Oracle) Check(st *Step, obs *StepObs, c02, c11 bool) []Finding {
 		expectReload = "full sync"
 	case obs.GlobalDiff:
 		expectReload = "global changed"
+	case obs.DefaultDiff:
+		expectReload = "default backend changed"
 	case obs.AddedBack:
 		expectReload = "backend added"
 	case obs.HostSet:
@@ -180,6 +182,39 @@ func (o *Oracle) Check(st *Step, obs *StepObs, c02, c11 bool) []Finding {
 	}
 	if obs.FaultsHit > 0 {
 		bucket("fault-hit")
+	}
+	// certificates renewed in this step: files, and files whose new content is the same
+	renewedFiles := map[string]string{}
+	for _, h := range obs.Hosts {
+		if !h.New && h.HasTLS && h.OldFile == h.File && h.OldHash != h.Hash {
+			renewedFiles[h.File] = h.Hash
+		}
+	}
+	if len(renewedFiles) > 0 {
+		bucket(fmt.Sprintf("cert-files-renewed=%d", len(renewedFiles)))
+		byHash := map[string]int{}
+		for _, hsh := range renewedFiles {
+			byHash[hsh]++
+		}
+		for _, n := range byHash {
+			if n > 1 {
+				bucket("cert-distinct-files-same-content-renewed")
+				break
+			}
+		}
+		if len(renewedFiles) > 1 && len(byHash) == len(renewedFiles) {
+			bucket("cert-files-renewed-distinct-contents")
+		}
+		hostsPerFile := map[string]int{}
+		for _, h := range obs.Hosts {
+			hostsPerFile[h.File]++
+		}
+		for f := range renewedFiles {
+			if hostsPerFile[f] > 1 {
+				bucket("cert-file-shared-by-hosts-renewed")
+				break
+			}
+		}
 	}
 	if anyDup {
 		bucket("duplicate-target")
